@@ -5,10 +5,14 @@ cd /verif
 for d in seeded/C*_*; do
   id=$(basename $d); p=${id%_*}
   case $p in
-    C01|C02|C03|C04) props="$p,C01,C02,C03,C04";;
+    C01) props="C01,C02,C03,C04";;
+    C02) props="C02,C01,C03,C04";;
+    C03) props="C03,C01,C02,C04";;
+    C04) props="C04,C01,C02,C03";;
     *) props=$p;;
   esac
   [ "$id" = "C01_3" ] && props="C01,C02,C16"
   [ "$id" = "C18_6" ] && props="C12,C18"
+  [ "$id" = "C01_12" ] && props="C01,C02,C16"
   echo "$props /verif/$d $id"
 done | xargs -P ${1:-3} -L 1 sh -c '/verif/tools/seed_eval.py $0 $1 --keep $2 > /tmp/seedrefresh_$2.json 2>&1'
